@@ -335,10 +335,13 @@ func (mw *msgWriter) addFiles(files []*File, isAttachment bool) {
 				mw.encoder.Encode(mw.charset.String(), sanitizeFilename(file.Name))))
 		}
 
+		// The encoding has to be determined on every render, not only on the first one (when the
+		// file headers are not cached yet), otherwise the body is base64 encoded under whatever
+		// Content-Transfer-Encoding label the first render has cached.
+		if file.Enc != "" {
+			encoding = file.Enc
+		}
 		if _, ok := file.getHeader(HeaderContentTransferEnc); !ok {
-			if file.Enc != "" {
-				encoding = file.Enc
-			}
 			file.setHeader(HeaderContentTransferEnc, string(encoding))
 		}
 
